@@ -141,6 +141,26 @@ def run(E: Engine, rep: Report, tier: str) -> dict:
             ok_inner = ok_inner or not [x for x in extra if not (x[0] == "cmp" and x[1] in ("In", "Eq", "Is"))]
     rep.check(ok_inner, "DOM-GUARD", "Sequence._validate_channel|block_eom_mode-rejects-in-eom", "`if block_eom_mode and self.is_in_eom_mode(channel): raise` present", "_validate_channel no longer rejects a channel in EOM mode when block_eom_mode is set", E.where(vc))
 
+    # the EOM state of a channel in a parametrized sequence is read off the stored enable/disable calls: the scan may
+    # answer only at a record of the *inspected* channel (a record of another channel says nothing about this one)
+    from .symutil import mentions as _ment13, sh as _sh13
+
+    iem = E.method(SEQ, "is_in_eom_mode")
+    scan_rets = [l for l in _S(E, iem).logged("return") if l.fn == iem.short and any(_ment13(it, "_calls", "_to_build_calls") for it in l.loops)]
+    # (the same scan written as next(<generator over the stored calls>, False): the generator's filter is the path)
+    scan_items = [(l, l.cond, l.value) for l in scan_rets]
+    if not scan_items:
+        for l in _S(E, iem).logged("return"):
+            for t in _sym.subterms(l.value) if l.value is not None and l.fn == iem.short else ():
+                if t[0] == "comp" and len(t[3]) >= 1 and any(_ment13(it_, "_calls", "_to_build_calls") for it_, _f in t[3]):
+                    scan_items.append((l, _sym.mk_and([f_ for _it, f_ in t[3]]), t[2]))
+    if not scan_items:
+        raise AnalysisError("anchor: Sequence.is_in_eom_mode no longer answers from a scan of the stored calls")
+    for i_, (l, cond_, val_) in enumerate(scan_items):
+        same_ch = [x for x in _sym.conj_of(cond_) if x[0] == "cmp" and x[1] == "Eq" and ("name", "channel") in (x[2], x[3])
+                   and _ment13(x[3] if x[2] == ("name", "channel") else x[2], "args", "kwargs")]
+        rep.check(bool(same_ch), "DOM-GUARD", f"Sequence.is_in_eom_mode|scan-answers-at-own-channel|return{i_}", "the scan returns only at a stored call whose channel argument == channel",
+                  f"is_in_eom_mode returns `{_sh13(val_, 80)}` at the latest stored enable/disable_eom_mode call of *any* channel (no `<call's channel> == channel` on the path): with two EOM channels the state of one is reported from the other's calls, so a channel in EOM mode accepts regular pulses / a second enable and refuses add_eom_pulse / disable", E.where(iem, l.node))
     spec_noeom = GuardSpec("not-in-eom", _never, ev_block_eom)
     spec_ineom = GuardSpec("in-eom", reject_if_call(E, q_in_eom, False), _never)
     spec_notin = GuardSpec("not-in-eom-direct", reject_if_call(E, q_in_eom, True), _never)
